@@ -353,6 +353,14 @@ func (m *Module) validateFunctions(enabledFeatures api.CoreFeatures, functions [
 		return fmt.Errorf("code count (%d) != function count (%d)", codeCount, functionCount)
 	}
 
+	// A function body may call any function of the module, so every type index of the function section
+	// has to be checked before the first body is validated.
+	for idx, typeIndex := range m.FunctionSection {
+		if typeIndex >= typeCount {
+			return fmt.Errorf("invalid %s: type section index %d out of range", m.funcDesc(SectionIDFunction, Index(idx)), typeIndex)
+		}
+	}
+
 	declaredFuncIndexes, err := m.declaredFunctionIndexes()
 	if err != nil {
 		return err
@@ -363,10 +371,7 @@ func (m *Module) validateFunctions(enabledFeatures api.CoreFeatures, functions [
 	br := bytes.NewReader(nil)
 	// Also, we reuse the stacks across multiple function validations to reduce allocations.
 	vs := &stacks{}
-	for idx, typeIndex := range m.FunctionSection {
-		if typeIndex >= typeCount {
-			return fmt.Errorf("invalid %s: type section index %d out of range", m.funcDesc(SectionIDFunction, Index(idx)), typeIndex)
-		}
+	for idx := range m.FunctionSection {
 		c := &m.CodeSection[idx]
 		if c.GoFunc != nil {
 			continue
